@@ -1,4 +1,5 @@
 import OVM.Hex.Stable
+import OVM.Refine.CellCheck
 /-
   C16, item 1: the length part of `HexShape` (four halfedges per stored face, six halffaces per stored
   cell, over ALL slots) is an invariant of EVERY operation of the hexahedral kernel in EVERY deletion
@@ -126,7 +127,9 @@ theorem ginv_hexAddCell {k : Kernel} {hfs : List Nat} (chk : Bool) (hok : Global
         · simp at hr
         · split at hr
           · simp at hr
-          · rename_i h1 h2; simp only [h1, h2]; rfl
+          · split at hr
+            · simp at hr
+            · rename_i h1 h2 h3; simp only [h1, h2, h3]; rfl
       rw [this]; exact ginv_addCell false hok.1 hok.2 hi
     · subst hc
       have : k.hexAddCell hfs true = k.addCell hfs true := by
@@ -135,7 +138,9 @@ theorem ginv_hexAddCell {k : Kernel} {hfs : List Nat} (chk : Bool) (hok : Global
         · simp at hr
         · split at hr
           · simp at hr
-          · rename_i h1 h2; simp only [h1, h2, hco]; rfl
+          · split at hr
+            · simp at hr
+            · rename_i h1 h2 h3; simp only [h1, h2, h3, hco]; rfl
       rw [this]; exact ginv_addCell true hok.1 hok.2 hi
     · subst hc
       have heq : k.hexAddCell hfs true = k.addCell l true := by
@@ -144,7 +149,9 @@ theorem ginv_hexAddCell {k : Kernel} {hfs : List Nat} (chk : Bool) (hok : Global
         · simp at hr
         · split at hr
           · simp at hr
-          · rename_i h1 h2; simp only [h1, h2, hco, hre]; rfl
+          · split at hr
+            · simp at hr
+            · rename_i h1 h2 h3; simp only [h1, h2, h3, hco, hre]; rfl
       have hfirst : hfs.getD 0 0 ∈ hfs := by
         cases hfs with
         | nil => exact absurd rfl hne
@@ -303,7 +310,9 @@ theorem hexLen_hexStep (k : Kernel) (op : HexOp) (hi : GInv k) (hok : HexOpOK k 
     | setEdge e a b => exact h.of_eq rfl rfl
     | setFace f hes => exact ⟨allLen_set h.1 f hes hok.2, h.2⟩
     | setCell c hfs => exact ⟨h.1, allLen_set h.2 c hfs hok.2⟩
-    | clear p => exact ⟨by simp [clear], by simp [clear]⟩
+    | clear p =>
+      show HexLen (k.clear p)
+      constructor <;> intro x hx <;> simp [clear] at hx
     | deleteVertex v => exact stable_step stable_hexLen k _ trivial hi hok h
     | deleteEdge v => exact stable_step stable_hexLen k _ trivial hi hok h
     | deleteFace v => exact stable_step stable_hexLen k _ trivial hi hok h
@@ -331,6 +340,48 @@ theorem shape_run (ops : List HexOp) (k : Kernel) (hi : GInv k) (h : HexLen k) (
 theorem shape_reachable (ops : List HexOp) (hr : HexHistoryOK {} ops) :
     GInv (hexRun {} ops) ∧ HexLen (hexRun {} ops) :=
   shape_run ops {} ginv_empty (by constructor <;> simp) hr
+
+/-! ### Boolean forms (for `decide` on concrete histories) -/
+
+def hexOpOKB (k : Kernel) : HexOp → Bool
+  | .base (.setFace f hes) => opOKB k (.setFace f hes) && hes.length == 4
+  | .base (.setCell c hfs) => opOKB k (.setCell c hfs) && hfs.length == 6
+  | .base op => opOKB k op
+  | .addCellV _ vs => vs.all (vOkB k) &&
+      (!(k.fullBU && vs.length == 8 && (cellVPrep k vs).2.all (·.isSome)) ||
+        opOKB (cellVPrep k vs).1 (.addCell false ((cellVPrep k vs).2.filterMap id)))
+
+theorem hexOpOK_of_B (k : Kernel) (op : HexOp) (h : hexOpOKB k op = true) : HexOpOK k op := by
+  cases op with
+  | addCellV chk vs =>
+    simp only [hexOpOKB, Bool.and_eq_true, Bool.or_eq_true, Bool.not_eq_true', List.all_eq_true] at h
+    refine ⟨fun v hv => vOk_of_B (h.1 v hv), fun h1 h2 h3 => ?_⟩
+    rcases h.2 with h4 | h4
+    · rw [h1, h2] at h4
+      have h3' : (cellVPrep k vs).2.all (·.isSome) = true := h3
+      rw [h3'] at h4
+      simp at h4
+    · exact opOK_of_B _ _ h4
+  | base op =>
+    cases op with
+    | setFace f hes =>
+      simp only [hexOpOKB, Bool.and_eq_true, beq_iff_eq] at h
+      exact ⟨opOK_of_B _ _ h.1, h.2⟩
+    | setCell c hfs =>
+      simp only [hexOpOKB, Bool.and_eq_true, beq_iff_eq] at h
+      exact ⟨opOK_of_B _ _ h.1, h.2⟩
+    | _ => exact opOK_of_B k _ (by simpa [hexOpOKB] using h)
+
+def hexHistoryOKB : Kernel → List HexOp → Bool
+  | _, [] => true
+  | k, op :: t => hexOpOKB k op && hexHistoryOKB (hexStep k op) t
+
+theorem hexHistoryOK_of_B (k : Kernel) (ops : List HexOp) (h : hexHistoryOKB k ops = true) : HexHistoryOK k ops := by
+  induction ops generalizing k with
+  | nil => trivial
+  | cons op t ih =>
+    simp only [hexHistoryOKB, Bool.and_eq_true] at h
+    exact ⟨hexOpOK_of_B k op h.1, ih _ h.2⟩
 
 end HexAll
 end Kernel
